@@ -502,14 +502,15 @@ def corr_native(run):
     n = 400 if run.quick else 5000
     kcap = 135 if run.quick else 1200
     cs = core.Cases(ID, "native", HEADER, "Z * list Z * list Z * outcome", NATIVE_CHECK, show=NATIVE_SHOW,
-                    shard=max(1, n // (core.NPROC * (1 if run.quick else 4))))
+                    shard=max(1, n // (core.NPROC * (1 if run.quick else 8))))
     inputs = corpus_inputs()
     while len(inputs) < n:
-        # thorough: 10% of the cases take K up to 1200 and 2% up to 4572 (about 0.6 ms per element inside Coq)
+        # thorough: 10% of the cases take K up to 1200 and 1% up to 4572 (about 0.6 ms per element and ~100 MB
+        # of coqc memory per K=4572 case: the literals)
         kmax = 135
         if not run.quick:
             r = run.rng.random()
-            kmax = K_MAX if r < 0.02 else (kcap if r < 0.12 else 135)
+            kmax = K_MAX if r < 0.01 else (kcap if r < 0.11 else 135)
         inputs.append(gen_input(run.rng, kmax))
     seen, dist, samples = set(), {"inf_or_raise": 0, "Kmax": 0}, []
     for p, q, lam, meta in inputs:
